@@ -22,6 +22,35 @@ reg("C12",
                  "symbolic engine cannot execute (external libstdc++ object)"],
     )
 
+_CB = ("switch_ with COLLECTION-valued branch outputs written through the forwarding terminal into the one output owned by the switch node; kind enumerated "
+       "{TSS<int>, TSD<int,TS<int>>}; reload_on_ticked enumerated on/off; default branch present; branches {key 0: applies the held operation at every evaluation (also at "
+       "selection: sampled inputs), key 1: publishes nothing in its first evaluation (State) and applies the operation from the second on, key 2: applies the "
+       "operation to elements shifted by one, default (keys 3 and 4 both unmatched): key-consuming, adds element key-2 and applies the operation, TSD values carry the "
+       "instance age}; operations {add 0, add 1, remove 0, add 0+1, remove 0 + add 2} on concrete element keys; per cycle the key source {does not tick, ticks one of KEYS} "
+       "x the command/payload sources {do not tick, tick one of the first NOPS operations with a fresh unconstrained symbolic int64 payload (TSD element values)} (all "
+       "combinations); checked after every cycle plus one trailing cycle by a clock-driven checker (value, added/removed/modified elements, ticks, per-branch evaluation counts, fresh State) and by an "
+       "active consumer of the switch output (evaluated on every tick, same value and delta)")
+reg("C12",
+    name="C12_switch_coll", src="harness/C12_switch_coll.cpp",
+    anchor_files=_ANCH + ["src/hgraph/types/time_series/ts_data/ops.cpp", "src/hgraph/types/time_series/ts_output/base_view.cpp"],
+    quick=dict(defs=dict(CONFIGS="{0,3},{1,3}", RELOADS=2, KEYS="0,1,3,4", NOPS=3), symx=dict(shards=16, **{"max-wall": 900, "query-timeout-ms": 120000})),
+    thorough=dict(defs=dict(CONFIGS="{0,3},{1,3}", RELOADS=2, KEYS="0,1,2,3,4", NOPS=5), symx=dict(shards=16, **{"max-wall": 3000, "shard-depth": 8, "query-timeout-ms": 120000})),
+    reach=["end"] + [k + ":" + l for k in ("tss", "tsd") for l in (
+        "switched", "two_switches", "reload_same_key_after_published_elements", "default_to_default_after_published_elements",
+        "flip_between_branches_after_published_elements", "new_instance_silent_in_selection_cycle_after_published_elements",
+        "late_branch_first_evaluation_after_published_elements", "late_branch_published_in_later_cycle", "retired_element_not_republished",
+        "retired_element_republished_in_selection_cycle", "instance_removed_own_element", "new_instance_removes_retired_element_in_selection_cycle",
+        "switch_with_nothing_published", "switch_and_input_tick_same_cycle", "selected_before_input_valid", "returned_to_earlier_key",
+        "same_key_tick_without_reload")],
+    bounds="3 cycles (+1 trailing); quick: KEYS {0,1,3,4}, operations {add 0, add 1, remove 0}; thorough: KEYS {0,1,2,3,4}, all 5 operations; " + _CB,
+    outside=("REF-shaped switch outputs and branches whose terminal is preserved (output_forwards_to_child_terminal: forwarding tree), pass-through branches (branch output = an outer "
+             "input), TSL / TSB / nested collection outputs, consumers bound to a single TSD element, scalar outputs (C12_switch; a scalar branch that stays silent after a switch away from an "
+             "instance that had written is not scripted there either), unmatched key without default (C12_switch), symbolic cycle times, more than 3 cycles (A/B slot reuse after 3 switches is in C12_switch); "
+             "an operation without net effect (remove of an absent element) may or may not tick the output - not demanded either way"),
+    assumptions=["set / dictionary element keys are concrete (enumerated operations): hashed containers cannot take symbolic keys; the TSD element payloads are symbolic",
+                 "an element of the retired instance that the fresh instance publishes again in the selection cycle may be reported as (nothing | removed+added | added) - only 'removed only' is rejected"],
+    )
+
 META = dict(
     level="bounded symbolic model checking of switch_ (wire_switch -> compile_switch_branch -> switch_node: branch selection, A/B slot reuse, sampled "
           "input binding on selection, teardown of the previous instance, reload_on_ticked, default branch, unmatched-key error) against a model with a fresh "
